@@ -238,3 +238,136 @@ func runLC(c *Ctx, s *Sink) {
 		s.Fail(nil, key, entry.Pos(), "the sequences are exchanged only when the first is the shortest: with equal lengths the first argument plays the longest, whose end gaps alone are free — FastLCSEGFScore(aac,aga) = (2,3) and FastLCSEGFScore(aga,aac) = (2,4)")
 	}
 }
+
+func init() {
+	register(&Rule{
+		ID: "LC-2", Props: []string{"C09", "C13"}, Min: 2,
+		Doc: `"for all error bounds -1, 0, 1, …": the banded LCS kernel sizes its two rows from the bound. (1) In the kernel (the function of pkg/obialign that allocates the rows: make([]uint64, k·width))
+the width of a row is, on every path to that allocation, at most 8·(lA + lB) + 16 — by linear arithmetic over the statements that precede it (length swap, default bound, end-gap-free
+adjustment followed), lengths being non-negative: no alignment of the two sequences has more than lA + lB differences, so a larger bound must be brought back to that. Without it the rows take
+192 bytes per unit of the bound whatever the sequences — obiclean -d 2000000000 on three 32-mers asks for 192 GB (out of memory), and above 2^60 the products wrap and the first store indexes
+a 3-word buffer at ~bound (index out of range) — where -d 64 gives the three records. (2) In the symbol comparison of the kernel (_samenuc) two letters that are the same letter match: the
+function holds a test of equality of its two arguments on the path of letters — the table gives the code 0 to the letters that are no IUPAC code (x, i, …) and 0 & 0 matched nothing, so a
+sequence holding an x was at distance 1 of itself and obiclean missed the links of such reads.`,
+		Run: func(c *Ctx, s *Sink) {
+			fd, p := c.FindFunc("pkg/obialign", "fastLCSEGFScoreByte")
+			key := "pkg/obialign.fastLCSEGFScoreByte:band-bounded-by-the-lengths"
+			if fd == nil {
+				s.Undecided(nil, key, 0, "kernel not found")
+			} else {
+				info := p.TypesInfo
+				// the allocation of the rows
+				var alloc *ast.CallExpr
+				var allocStmt ast.Stmt
+				for _, st := range fd.Body.List {
+					ast.Inspect(st, func(n ast.Node) bool {
+						if call, ok := n.(*ast.CallExpr); ok && alloc == nil {
+							if id, ok := call.Fun.(*ast.Ident); ok && id.Name == "make" && len(call.Args) >= 2 {
+								if t := info.TypeOf(call.Args[0]); t != nil && strings.HasSuffix(t.String(), "[]uint64") {
+									alloc, allocStmt = call, st
+								}
+							}
+						}
+						return true
+					})
+				}
+				if alloc == nil {
+					s.Undecided(nil, key, fd.Pos(), "no allocation of the rows")
+				} else {
+					// the variable the rows are sliced with: the non constant factor of the size
+					var width ast.Expr
+					ast.Inspect(alloc.Args[1], func(n ast.Node) bool {
+						if id, ok := n.(*ast.Ident); ok && width == nil {
+							if _, isC := constInt(info, id); !isC {
+								width = id
+							}
+						}
+						return true
+					})
+					var pre []ast.Stmt
+					for _, st := range fd.Body.List {
+						if st == allocStmt {
+							break
+						}
+						pre = append(pre, st)
+					}
+					env := &linEnv{info: info, vars: map[types.Object]linForm{}, defs: map[types.Object][]ast.Expr{}, atoms: map[string]bool{}, lens: map[string]bool{}, elems: map[string]linForm{}}
+					paths := linWalk([]linPath{{env: env}}, pre, func(linPath, ast.Stmt) {})
+					ps := flattenParams(fd.Type.Params)
+					ok, n := width != nil && len(ps) >= 2, 0
+					why := ""
+					for _, pth := range paths {
+						n++
+						pth.env.cur = pth.sys
+						w, ok1 := pth.env.form(width, 0)
+						la := lfAtom("|" + ps[0].Name + "|")
+						lb := lfAtom("|" + ps[1].Name + "|")
+						pth.env.atoms["|"+ps[0].Name+"|"], pth.env.lens["|"+ps[0].Name+"|"] = true, true
+						pth.env.atoms["|"+ps[1].Name+"|"], pth.env.lens["|"+ps[1].Name+"|"] = true, true
+						bound := la.add(lb, 1).scale(8).add(lfConst(16), 1)
+						if !ok1 || !pth.known().entails(linLE(w, bound)) {
+							ok = false
+							if ok1 {
+								why = "width = " + w.String()
+							}
+						}
+					}
+					switch {
+					case n == 0:
+						s.Undecided(nil, key, alloc.Pos(), "the allocation is not reached by the path enumeration")
+					case ok:
+						s.Pass(nil, key, alloc.Pos(), fmt.Sprintf("width <= 8·(lA+lB)+16 on the %d paths to the allocation", n))
+					default:
+						s.Fail(nil, key, alloc.Pos(), "the width of the rows follows the error bound without limit ("+why+"): 192 bytes per unit of the bound whatever the sequences — two identical 10-mers with maxError = 2^20 take 100 MB of scratch memory, obiclean -d 2000000000 on three 32-mers runs out of memory (192 GB asked), and above 2^60 the products wrap and the first store is out of range; a bound larger than lA + lB asks nothing more than lA + lB")
+					}
+				}
+			}
+			// (2)
+			key = "pkg/obialign._samenuc:a-letter-matches-itself"
+			sfd, sp := c.FindFunc("pkg/obialign", "_samenuc")
+			if sfd == nil {
+				s.Undecided(nil, key, 0, "function not found")
+				return
+			}
+			sinfo := sp.TypesInfo
+			ps := flattenParams(sfd.Type.Params)
+			if len(ps) < 2 {
+				s.Undecided(nil, key, sfd.Pos(), "two parameters expected")
+				return
+			}
+			a, b := sinfo.ObjectOf(ps[0]), sinfo.ObjectOf(ps[1])
+			// every return that consults the table (an & of two table entries) also accepts a == b
+			bad := token.NoPos
+			ast.Inspect(sfd.Body, func(n ast.Node) bool {
+				r, ok := n.(*ast.ReturnStmt)
+				if !ok || len(r.Results) != 1 {
+					return true
+				}
+				usesTable, hasEq := false, false
+				ast.Inspect(r.Results[0], func(m ast.Node) bool {
+					if be, ok := m.(*ast.BinaryExpr); ok {
+						if be.Op == token.AND {
+							usesTable = true
+						}
+						if be.Op == token.EQL {
+							x, y := rootObj(sinfo, be.X), rootObj(sinfo, be.Y)
+							if (x == a && y == b) || (x == b && y == a) {
+								hasEq = true
+							}
+						}
+					}
+					return true
+				})
+				if usesTable && !hasEq && !bad.IsValid() {
+					bad = r.Pos()
+				}
+				return true
+			})
+			if bad.IsValid() {
+				s.Fail(nil, key, bad, "two letters are compared through the table of IUPAC codes only: the letters that are no IUPAC code (e f i j l o p q x z) have the code 0 and 0 & 0 matches nothing, not even the letter itself — acgtxacgt against itself gives LCS (8,9) instead of (9,9), and obiclean -d 2 does not link a father and a son two substitutions apart as soon as both hold an x (status s / s instead of h / i)")
+			} else {
+				s.Pass(nil, key, sfd.Pos(), "a letter matches itself whatever its code")
+			}
+		},
+	})
+}
